@@ -312,6 +312,11 @@ func c16ExpectStruct(s *c16Struct, m *c16Module, jsonSuffix string) string {
 		d := "-"
 		if mb.Def != "" {
 			d = c16PlainLit(mb.Ty, mb.Def, m)
+			// a declared default equal to the zero value of the type is not observable on the generated code (the
+			// repaired ResetDefault assigns every member): the driver reports it as none
+			if d == "0" || d == "false" || d == "f0" || d == "s" {
+				d = "-"
+			}
 		}
 		parts = append(parts, fmt.Sprintf("%d:%s:%s:%s:%s:%s=%s", mb.Tag, coqBool(mb.Req), c16Upper(mb.Key), mb.Key, mb.Key+jsonSuffix, gt, d))
 	}
